@@ -92,6 +92,11 @@ mutual
     | .cons v t => size v + sizeList t
 end
 
+/-- `PathBuf::serialize`: `self.to_string_lossy().to_string().serialize()` on the path's OS bytes
+    (on Unix any byte string is a path). -/
+def serPath (osBytes : List Nat) : List Nat :=
+  ser (.blob (if validUtf8 osBytes then osBytes else utf8Lossy osBytes))
+
 /-! ### Decoders -/
 
 /-- `String::deserialize` / `Vec<u8>::deserialize` up to the extracted payload.
